@@ -61,12 +61,38 @@ def serializeFields (t : Treemap) : List (List Nat) :=
 /-- `serialize_into(&mut writer)` on a limited, scheduled writer: `(Ok?, writer afterwards)` -/
 def serializeInto (t : Treemap) (w : SWriter) : Bool × SWriter := w.writeFields (serializeFields t)
 
+/-! ### Mirrored forms (fidelity audit): the inner 32-bit encoder with the `u64` cardinality-field arithmetic
+(`Bitmap.serializeM` / `Bitmap.serializeFieldsM`); `none` = its overflow panic on an empty container. -/
+
+/-- treemap/serialization.rs:46-49, the loop over the entries -/
+def partsM (ovf : Bool) : Treemap → Option (List Nat)
+  | [] => some []
+  | p :: ps =>
+    match Bitmap.serializeM ovf p.2 with
+    | none => none
+    | some a =>
+      match partsM ovf ps with
+      | none => none
+      | some r => some (u32le p.1 ++ a ++ r)
+
+/-- treemap/serialization.rs:43-52 `serialize_into` on a writer that accepts everything -/
+def serializeM (ovf : Bool) (t : Treemap) : Option (List Nat) :=
+  (partsM ovf t).map fun r => u64le t.length ++ r
+
+def serializeFieldsM (ovf : Bool) (t : Treemap) : List (Option (List Nat)) :=
+  some (u64le t.length) :: t.flatMap fun p => some (u32le p.1) :: Bitmap.serializeFieldsM ovf p.2
+
+def serializeIntoM (ovf : Bool) (t : Treemap) (w : SWriter) : Option (Bool × SWriter) :=
+  w.writeFieldsM (serializeFieldsM ovf t)
+
 end Treemap
 
 namespace Serde
 
 /-- treemap/serde.rs:46-56 `impl Serialize for RoaringTreemap` (the same code as for `RoaringBitmap`) -/
 def tserEvents (t : Treemap) : List Event := serEventsOf Treemap.serialize t
+/-- the same over the exact encoder (`Treemap.serializeM`); `none` = panic -/
+def tserEventsM (ovf : Bool) (t : Treemap) : Option (List Event) := serEventsOfM (Treemap.serializeM ovf) t
 
 /-- treemap/serde.rs:22-41: `visit_bytes` / `visit_seq` run `RoaringTreemap::deserialize_from` (checked) -/
 def tvisitBytes (dbg : Bool) := visitBytesOf (Treemap.deserialize true dbg)
